@@ -58,6 +58,16 @@ def specs(prop='C02'):
             v = self._e(k)
             return d if v is ABSENT else v
 
+        def pop(self, k, *d):
+            v = self._e(k)
+            if v is ABSENT:
+                if d:
+                    return d[0]
+                raise PyRaise(KeyError(k))
+            self.version += 1
+            self.entries[k] = ABSENT
+            return v
+
         def clear(self):
             self.version += 1
             self.cleared = True
